@@ -331,6 +331,8 @@ pub struct Interp<'a> {
     pub m: &'a Model<'a>,
     pub config: BTreeSet<usize>,
     pub history: BTreeMap<usize, Vec<usize>>,
+    /// states entered in the current macrostep and not exited since (statesToInvoke)
+    pub states_to_invoke: BTreeSet<usize>,
     pub iq: VecDeque<EvIn>,
     pub data: BTreeMap<String, Val>,
     pub readonly: BTreeSet<String>,
@@ -361,6 +363,7 @@ impl<'a> Interp<'a> {
             m,
             config: BTreeSet::new(),
             history: BTreeMap::new(),
+            states_to_invoke: BTreeSet::new(),
             iq: VecDeque::new(),
             data: BTreeMap::new(),
             readonly: BTreeSet::new(),
@@ -915,6 +918,7 @@ impl<'a> Interp<'a> {
             }
             self.out.push(Obs::Enter(m.st[s].id.clone()));
             self.config.insert(s);
+            self.states_to_invoke.insert(s);
             let n = m.node(s);
             if m.doc.late && !self.first_entry.contains(&s) {
                 self.first_entry.insert(s);
@@ -1011,6 +1015,7 @@ impl<'a> Interp<'a> {
                 self.run_block(b);
             }
             self.config.remove(&s);
+            self.states_to_invoke.remove(&s);
         }
     }
 
@@ -1086,24 +1091,42 @@ impl<'a> Interp<'a> {
 
     /// finish the macrostep: eventless transitions first, then internal events, until stable
     fn macrostep_rest(&mut self) {
-        while self.running {
-            if self.microsteps > MAX_MICROSTEPS {
-                self.diverged = true;
-                return;
-            }
-            let mut enabled = self.select(None);
-            if enabled.is_empty() {
-                match self.iq.pop_front() {
-                    None => break,
-                    Some(ev) => {
-                        self.out.push(Obs::IntRecv(ev.name.clone()));
-                        self.cur_event = Some(ev.clone());
-                        enabled = self.select(Some(&ev));
+        loop {
+            while self.running {
+                if self.microsteps > MAX_MICROSTEPS {
+                    self.diverged = true;
+                    return;
+                }
+                let mut enabled = self.select(None);
+                if enabled.is_empty() {
+                    match self.iq.pop_front() {
+                        None => break,
+                        Some(ev) => {
+                            self.out.push(Obs::IntRecv(ev.name.clone()));
+                            self.cur_event = Some(ev.clone());
+                            enabled = self.select(Some(&ev));
+                        }
                     }
                 }
+                if !enabled.is_empty() {
+                    self.microstep(enabled);
+                }
             }
-            if !enabled.is_empty() {
-                self.microstep(enabled);
+            if !self.running {
+                break;
+            }
+            // the macrostep is complete: the invokes of the states entered during it (and still active) are
+            // started, in entry order; one that cannot be started raises error.execution, and internal events
+            // are handled before the next external event
+            let m: &'a Model<'a> = self.m;
+            let to_invoke: Vec<usize> = std::mem::take(&mut self.states_to_invoke).into_iter().collect();
+            for s in to_invoke {
+                for _ in 0..m.node(s).bad_invokes {
+                    self.error_execution();
+                }
+            }
+            if self.iq.is_empty() {
+                break;
             }
         }
         if self.running {
